@@ -82,6 +82,11 @@ CLAIMS["C11"] = ("symbolic execution (symx; strings as symbolic choices over a h
          "reproduces page, boxes, figure name, fonts, sizes and character data of the tree; the text output is the in-order concatenation with a line break per box and a form feed per page; a binary sink with each "
          "listed codec holds the same characters as a text sink; enc() round-trips through html.unescape without raw markup. Exhaustive over the alphabet bound (confirmed over all paths).",
          "4.C11")
+CLAIMS["C06"] = ("symbolic execution (symx) of the real EncodingDB.get_encoding, name2unicode, PDFSimpleFont.to_unichr and PDFType1Font/PDFType3Font width handling",
+         "For every Differences array of up to 3 items (codes and glyph names by symbolic choice) over each base encoding the result is the base table overlaid per ISO 9.6.6 and the shared tables are untouched; "
+         "name2unicode equals the Adobe Glyph List algorithm on uni/u names with symbolic hex digits and on underscore/dot compositions; ToUnicode precedes the encoding, else (cid:N); for symbolic FirstChar, "
+         "Widths, MissingWidth, code and Type 3 FontMatrix the advance is Widths[code-FirstChar] or MissingWidth scaled by the font matrix. Static tables (base encodings, glyph list, standard-14 metrics) are data, not claimed.",
+         "4.C06")
 NA = {}
 def main():
     props = [json.loads(l) for l in open(os.path.join(ROOT, "properties.jsonl"))]
